@@ -69,7 +69,43 @@ def _carry(x, base):
     return Mod(ax, base) * s, Div(ax, base) * s
 
 
+def _months_rd(months):
+    """relativedelta._set_months"""
+    rd = RD()
+    rd.months, rd.years = _carry(months, 12)
+    return rd
+
+
+def relativedelta_between(interp, dt1, dt2):
+    """relativedelta(dt1, dt2): whole months from dt2 towards dt1 (never overshooting), the rest as
+    days/hours/minutes/seconds -- transcribed from relativedelta.__init__; the search loop moves the
+    month count by at most one step"""
+    months0 = (dt1.year - dt2.year) * 12 + (dt1.month - dt2.month)
+    dtm0 = add_rd(interp, dt2, _months_rd(months0))
+    later = interp.branch(Not(dt_compare("<", dt1, dt2)))
+    if later:
+        over = interp.branch(dt_compare("<", dt1, dtm0))
+        months = months0 - 1 if over else months0
+    else:
+        over = interp.branch(dt_compare(">", dt1, dtm0))
+        months = months0 + 1 if over else months0
+    dtm = add_rd(interp, dt2, _months_rd(months)) if over else dtm0
+    rd = _months_rd(interp.simp(months))
+    td = dt_sub(interp, dt1, dtm)
+    secs = td.seconds + td.days * 86400
+    rd.microseconds = td.microseconds
+    rd.seconds, c = _carry(secs, 60)
+    rd.minutes, c = _carry(c, 60)
+    rd.hours, c = _carry(c, 24)
+    rd.days = c
+    for f in ("seconds", "minutes", "hours", "days", "months", "years"):
+        setattr(rd, f, interp.simp(getattr(rd, f)))
+    return rd
+
+
 def make_relativedelta(interp, args, kwargs):
+    if len(args) == 2 and isinstance(args[0], DT) and isinstance(args[1], DT) and not kwargs:
+        return relativedelta_between(interp, args[0], args[1])
     if args:
         raise Unsupported("relativedelta with positional arguments")
     rd = RD()
